@@ -47,7 +47,7 @@ Cl1 == IF parked /\ lastSend = "F" THEN closed \cup {cur} ELSE closed
 Exp ==
   IF ~parked \/ ~Cfg.exact \/ rewalk THEN NoExp
   ELSE LET T0 == SnapAt(T0i)  T1 == SnapAt(Ti)  ci == IdxOf(T0, cur)
-           below == FirstBelow(T1, cur, Cfg, Op1)
+           below == FirstBelow(T1, cur, Cfg, Op1, Cfg.scope /\ lastSend # "T")
        IN IF ci = 0 THEN NoExp
           ELSE IF cur \notin Serials(T1)
           THEN [on |-> TRUE, clause |-> "RemovedContinues"]
